@@ -284,6 +284,20 @@ def quiet_phase(cl, rng, trace, state, rounds=30, ncmds=3):
             do(('Tick', voters[turn % len(voters)], 'j'))
             turn += 1
             deliver_all()
+    # a follower whose long stale tail is taken back one entry per round trip needs as many rounds as the tail is long:
+    # slow, but not stuck - keep the quiet period going while the cluster is still making progress
+    def behind():
+        ap = [N[n].obj.raftLastApplied for n in ids if N[n].alive]
+        return max(ap) - min(ap) if ap else 0
+    extra, last_gap, stalled = 0, None, 0
+    while extra < 5 * rounds and stalled < 12 and (behind() > 0 or len([n for n in voters if N[n].obj._isLeader()]) != 1):
+        for n in ids:
+            do(('Tick', n, 'h'))
+        deliver_all()
+        extra += 1
+        g = (behind(), tuple(sorted((str(k), v) for n in voters if N[n].obj._isLeader() for k, v in getattr(N[n].obj, '_SyncObj__raftNextIndex').items())))
+        stalled = stalled + 1 if g == last_gap else 0
+        last_gap = g
     trace.append(cl.step(('Assert', 'converged')))
 
 
